@@ -175,21 +175,46 @@ def _shape(fn, r, w, h):
     return lambda x, y: fn(r.center.x, r.center.y, w, h, cs(r.angle)[0], cs(r.angle)[1], x, y)
 
 
+def annulus_modular(self, pixcoord, result, k, l):
+    """(1) the annulus answers  inner.contains xor outer.contains  of its two component regions, negated once more when excluded
+    (each component, sharing the annulus' meta, already answers its own complement then)"""
+    a = bool(elem(self._inner_region.contains(pixcoord), k, l))
+    b = bool(elem(self._outer_region.contains(pixcoord), k, l))
+    x = (a != b)
+    return bool(elem(result, k, l)) == (x if included(self) else not x)
+
+
+def components_ok(self, cls_name):
+    """(2) the components are the inner and the outer shape: same centre and angle, inner / outer sizes, the annulus' own meta"""
+    i, o = self._inner_region, self._outer_region
+    return (i.__class__.__name__ == cls_name and o.__class__.__name__ == cls_name
+            and i.center.x == self.center.x and i.center.y == self.center.y and o.center.x == self.center.x and o.center.y == self.center.y
+            and i.width == self.inner_width and i.height == self.inner_height and o.width == self.outer_width and o.height == self.outer_height
+            and i.angle.to_value('rad') == self.angle.to_value('rad') and o.angle.to_value('rad') == self.angle.to_value('rad')
+            and dict(i.meta) == dict(self.meta) and dict(o.meta) == dict(self.meta))
+
+
+def nested(spec_closed, spec_open, self, x, y):
+    """(3) spec-level lemma: a point of the closed inner shape lies in the open outer shape (inner sizes < outer sizes)"""
+    c, s = cs(self.angle)
+    return implies(spec_closed(self.center.x, self.center.y, self.inner_width, self.inner_height, c, s, x, y),
+                   spec_open(self.center.x, self.center.y, self.outer_width, self.outer_height, c, s, x, y))
+
+
 @contract(ELLIPSE_ANN + '.contains', props=['C01', 'C08', 'C13'])
 class ellipse_annulus_contains:
+    """modular: (1) xor of the component answers, (2) the components are the inner/outer ellipses, (3) inner lies in outer;
+    with ellipse_contains (the component contract) this gives membership = outer and not inner, boundary excepted"""
     cases = QIU
 
     def setup(B, q='scalar', inc='absent', unit='deg'):
         return dict(self=asym_annulus(B, 'r', ELLIPSE_ANN, inc, unit), pixcoord=query(B, q))
     pre = lambda self: asym_annulus_ok(self)
-    forall = {'k': 'int', 'l': 'int'}
+    forall = {'k': 'int', 'l': 'int', 'x': 'real', 'y': 'real'}
     post = {
-        'member': lambda self, pixcoord, result, k, l: implies(idx_ok(pixcoord.x, k, l), agrees(
-            self, pixcoord, result, k, l,
-            ann_open(_shape(ellipse_closed, self, self.inner_width, self.inner_height),
-                     _shape(ellipse_open, self, self.outer_width, self.outer_height)),
-            ann_closed(_shape(ellipse_open, self, self.inner_width, self.inner_height),
-                       _shape(ellipse_closed, self, self.outer_width, self.outer_height)))),
+        'xor_of_components': lambda self, pixcoord, result, k, l: implies(idx_ok(pixcoord.x, k, l), annulus_modular(self, pixcoord, result, k, l)),
+        'components_are_inner_and_outer': lambda self: components_ok(self, 'EllipsePixelRegion'),
+        'inner_lies_in_outer': lambda self, x, y: nested(ellipse_closed, ellipse_open, self, x, y),
         'shape_and_type': lambda self, pixcoord, result: bool_like(result, pixcoord.x),
     }
 
@@ -201,14 +226,11 @@ class rectangle_annulus_contains:
     def setup(B, q='scalar', inc='absent', unit='deg'):
         return dict(self=asym_annulus(B, 'r', RECT_ANN, inc, unit), pixcoord=query(B, q))
     pre = lambda self: asym_annulus_ok(self)
-    forall = {'k': 'int', 'l': 'int'}
+    forall = {'k': 'int', 'l': 'int', 'x': 'real', 'y': 'real'}
     post = {
-        'member': lambda self, pixcoord, result, k, l: implies(idx_ok(pixcoord.x, k, l), agrees(
-            self, pixcoord, result, k, l,
-            ann_open(_shape(rect_closed, self, self.inner_width, self.inner_height),
-                     _shape(rect_open, self, self.outer_width, self.outer_height)),
-            ann_closed(_shape(rect_open, self, self.inner_width, self.inner_height),
-                       _shape(rect_closed, self, self.outer_width, self.outer_height)))),
+        'xor_of_components': lambda self, pixcoord, result, k, l: implies(idx_ok(pixcoord.x, k, l), annulus_modular(self, pixcoord, result, k, l)),
+        'components_are_inner_and_outer': lambda self: components_ok(self, 'RectanglePixelRegion'),
+        'inner_lies_in_outer': lambda self, x, y: nested(rect_closed, rect_open, self, x, y),
         'shape_and_type': lambda self, pixcoord, result: bool_like(result, pixcoord.x),
     }
 
